@@ -277,80 +277,166 @@ def run(ctx, report):
     stack_operand_rule(ctx, R6, L, L.sem)
 
     # ---------------------------------------------------------------- D7 the repeat count of a rep-prefixed string instruction
-    R7 = report.rule('C08.D7', 'the lifted list of a rep-prefixed string instruction reads and writes the count register, for the same instructions the emulator repeats', floor=3)
+    R7 = report.rule('C08.D7', 'the lifted list of a rep-prefixed string instruction reads and writes the count register the address size selects, for every string instruction under F2 or F3 (predicate and count evaluated)', floor=6)
     rep_count_rule(ctx, R7)
 
 
 def rep_count_rule(ctx, R):
     """emul_full_expr repeats a string instruction under F2/F3; the count register decides whether anything happens and is decremented, so the lifted
-    list of such an instruction has to assign ecx from ecx.  Checked: (1) the function that lifts an instruction (get_instr_expr_args) appends, under a
-    test of the prefix, an assignment to ecx whose source reads ecx; (2) that test and the one by which emul_full_expr chooses the repeat loop are the same
-    predicate (one function called by both, or the same prefix constants and mnemonic list)."""
+    list of such an instruction has to assign ecx from ecx.  Evaluated from the source of emul_helper:
+    (1) the predicate by which get_instr_expr_args adds the count (and by which emul_full_expr selects its loop), on prefix x mnemonic: both F2 and F3
+        repeat every string instruction (ins outs movs lods stos cmps scas, b/w/d), nothing else is repeated;
+    (2) the statements under that predicate, on the four operand/address-size combinations with ecx = 0x10000: the count is ecx, or cx when the ADDRESS
+        size is 16 bits (the operand size does not matter), and one iteration takes 1 from it."""
     from ..core import norm
+    from ..consteval import Evaluator, Obj, Native, NotConst, PyRaise
+    from ..x86table import model as x86model
+    afs = x86model(ctx).afs
     eh = ctx.mod('emul_helper')
     lift = eh.func('get_instr_expr_args')
     emu = eh.func('emul_full_expr')
 
-    def rep_tests(fn):
-        out = []
+    def mk_l(prefix, name, opmode=None, admode=None):
+        l = Obj('l')
+        l.prefix = list(prefix)
+        m = Obj('m')
+        m.name = name
+        l.m = m
+        l.opmode = opmode or afs.u32
+        l.admode = admode or afs.u32
+        l.mnemo_mode = afs.u32
+        return l
+
+    def scope():
+        sc = {'x86_afs': afs}
+        for st in eh.tree.body:
+            if isinstance(st, ast.Assign) and len(st.targets) == 1 and isinstance(st.targets[0], ast.Name) and isinstance(st.value, (ast.List, ast.Tuple)):
+                try:
+                    sc[st.targets[0].id] = Evaluator({}).ev(st.value)
+                except NotConst:
+                    pass
+        for fname_, fnode_ in eh.funcs.items():
+            sc.setdefault(fname_, fnode_)
+        return sc
+
+    def rep_if(fn):
+        """the if-statement of fn whose test (through the functions it calls) reads the F2/F3 prefix"""
         for n in walk_no_nested(fn):
             if isinstance(n, ast.If):
-                t = n.test
-                txt = u(t)
-                callee = None
-                for c in ast.walk(t):
+                txt = u(n.test)
+                for c in ast.walk(n.test):
                     if isinstance(c, ast.Call) and isinstance(c.func, ast.Name) and c.func.id in eh.funcs:
-                        callee = c.func.id
-                        txt += ' ; ' + ' ; '.join(u(x) for x in eh.funcs[callee].body)
-                if '.prefix' in txt and ('243' in txt or '0xF3' in txt.upper().replace('0XF3', '0xF3')):
-                    out.append((n, callee, txt))
-        return out
-
-    def facts(txt):
-        consts = sorted(set(c.value for c in ast.walk(ast.parse('(%s)' % txt.replace(' ; ', ', ').replace('return ', ''), mode='eval')) if isinstance(c, ast.Constant)
-                            and isinstance(c.value, (int, str))), key=str)
-        names = set()
-        for nm in ast.walk(ast.parse('(%s)' % txt.replace(' ; ', ', ').replace('return ', ''), mode='eval')):
-            if isinstance(nm, ast.Name) and nm.id in eh.assigns:
-                v = eh.assign_value(nm.id)
-                if isinstance(v, ast.List):
-                    names.update(e.value for e in v.elts if isinstance(e, ast.Constant))
-        return set(consts) | names
-    lt, et = rep_tests(lift), rep_tests(emu)
-    if not et:
+                        txt += ' ; ' + ' ; '.join(u(x) for x in eh.funcs[c.func.id].body)
+                if '.prefix' in txt and ('243' in txt or '0xf3' in txt.lower()):
+                    return n
+        return None
+    lt, et = rep_if(lift), rep_if(emu)
+    if et is None:
         raise AnalysisError('emul_full_expr no longer selects the repeat loop by the F2/F3 prefix')
-    R.ok('emul_full_expr: repeat loop', sample='the emulator repeats under `%s`' % norm(et[0][0].test))
     inst = 'get_instr_expr_args: count of a repeated string instruction'
-    if not lt:
+    if lt is None:
         R.violation(inst, 'rep-count:missing', 'get_instr_expr_args lifts a rep-prefixed string instruction as one unprefixed iteration: ecx, which decides whether anything happens and is '
                     'decremented, is neither read nor written by the lifted list (emul_full_expr loops on it)', where(eh, lift),
                     witness="get_instr_expr(dis(f3 a4)) = [@8[edi] = @8[esi], edi = .., esi = ..]: no ecx")
         return
-    node, callee, txt = lt[0]
-    affs = [c for st in node.body for c in ast.walk(st) if isinstance(c, ast.Call) and u(c.func) == 'ExprAff' and len(c.args) == 2 and u(c.args[0]) == 'ecx']
-    ok_aff = False
-    for c in affs:
-        src = c.args[1]
-        srcs = [src]
-        if isinstance(src, ast.Name):
-            srcs = [a.value for a in ast.walk(node) if isinstance(a, ast.Assign) and u(a.targets[0]) == src.id]
-        if srcs and all(any(isinstance(x, ast.Name) and x.id == 'ecx' for x in ast.walk(s_)) for s_ in srcs):
-            ok_aff = True
-    if not ok_aff:
-        R.violation(inst, 'rep-count:not-assigned', 'under the prefix test get_instr_expr_args does not append an assignment of ecx from ecx', where(eh, node))
-    else:
-        R.ok(inst, sample='under `%s` the list gets ExprAff(ecx, f(ecx))' % norm(node.test))
-    inst2 = 'repeat predicate: lifter vs emulator'
-    if callee is not None and callee == et[0][1]:
-        R.ok(inst2, sample='both call %s' % callee)
-    else:
-        fl, fe = facts(txt), facts(et[0][2])
-        if fl == fe:
-            R.ok(inst2, sample='same prefix constants and mnemonic stems: %s' % sorted(fl, key=str))
+    # (1) the two predicates, evaluated
+    STEMS = ('ins', 'outs', 'movs', 'lods', 'stos', 'cmps', 'scas')
+    cases = [((pfx,), stem + sfx, True) for pfx in (0xF2, 0xF3) for stem in STEMS for sfx in 'bwd']
+    cases += [((), stem + 'b', False) for stem in STEMS] + [((0xF3,), nm, False) for nm in ('mov', 'add', 'nop', 'pause', 'ret', 'lodsq_', 'movsx', 'movzx')]
+    cases += [((0xF2,), nm, False) for nm in ('mov#ups#', 'cmp#ps#', '#MMX#movs')] + [((0x66, 0xF3), 'movsw', True), ((0x67, 0xF2), 'stosb', True)]
+    for who, node, negated in (('get_instr_expr_args', lt, False), ('emul_full_expr', et, isinstance(et.test, ast.UnaryOp) and isinstance(et.test.op, ast.Not))):
+        bad = []
+        for prefix, name, want in cases:
+            try:
+                got = bool(Evaluator(scope()).ev(node.test, {'l': mk_l(prefix, name)}))
+            except PyRaise as e:
+                bad.append('%s %s: raises %s' % (list(map(hex, prefix)), name, e.exc_name))
+                continue
+            except NotConst as e:
+                raise AnalysisError('the repeat predicate of %s is outside the evaluable subset: %s' % (who, e))
+            if negated:
+                got = not got
+            if got != want:
+                bad.append('%s %s %s' % (' '.join('%02x' % b for b in prefix) or 'no prefix', name, 'is not repeated' if want else 'is repeated'))
+        inst1 = '%s: which instructions are repeated' % who
+        if bad:
+            R.violation(inst1, 'rep-count:predicate:%s' % who, '%s: %s (F2 and F3 both repeat every string instruction; the count register is read and decremented)'
+                        % (who, '; '.join(bad[:4]) + (' .. %d in all' % len(bad) if len(bad) > 4 else '')), where(eh, node),
+                        witness="f2 a4 (repnz movsb) copies ecx bytes on the processor")
         else:
-            R.violation(inst2, 'rep-count:predicate', 'the lifter gives the count to %s, the emulator repeats %s' % (sorted(fl - fe, key=str) or 'fewer instructions',
-                                                                                                                  sorted(fe - fl, key=str) or 'fewer instructions'), where(eh, node))
+            R.ok(inst1, sample='%s: predicate evaluated on %d prefix x mnemonic pairs' % (who, len(cases)))
+    # (2) the count, evaluated
+    class T(object):
+        def __init__(self, kind, *a):
+            self.kind, self.a = kind, a
 
+        def __getitem__(self, sl):
+            return T('slice', self, sl.start or 0, sl.stop)
+
+        def __sub__(self, o):
+            return T('sub', self, o)
+
+        def __add__(self, o):
+            return T('add', self, o)
+
+    def val(t, ecx0):
+        """(value, width)"""
+        if t.kind == 'reg':
+            return ecx0, 32
+        if t.kind == 'int':
+            return t.a[0] & ((1 << t.a[1]) - 1), t.a[1]
+        if t.kind == 'slice':
+            v, w = val(t.a[0], ecx0)
+            return (v >> t.a[1]) & ((1 << (t.a[2] - t.a[1])) - 1), t.a[2] - t.a[1]
+        if t.kind in ('sub', 'add'):
+            (a, wa), (b, wb) = val(t.a[0], ecx0), val(t.a[1], ecx0)
+            if wa != wb:
+                raise AnalysisError('rep count: operands of different widths')
+            return ((a - b) if t.kind == 'sub' else (a + b)) & ((1 << wa) - 1), wa
+        if t.kind == 'neg':
+            v, w = val(t.a[0], ecx0)
+            return (-v) & ((1 << w) - 1), w
+        if t.kind == 'compose':
+            out = 0
+            for piece, lo, hi in t.a[0]:
+                v, w = val(piece, ecx0)
+                out |= (v & ((1 << (hi - lo)) - 1)) << lo
+            return out, max(hi for _, _, hi in t.a[0])
+        raise AnalysisError('rep count: unmodelled term %s' % t.kind)
+    ecx_t = T('reg')
+
+    def exprop(op, *args):
+        if op == '+':
+            return T('add', *args)
+        if op == '-' and len(args) == 2:
+            return T('sub', *args)
+        if op == '-':
+            return T('neg', *args)
+        raise NotConst('operator %s' % op)
+    ECX0 = 0x10000
+    for opm, adm in ((afs.u32, afs.u32), (afs.u16, afs.u32), (afs.u32, afs.u16), (afs.u16, afs.u16)):
+        sc = scope()
+        sc.update({'ecx': ecx_t, 'ExprInt': Native(lambda v: T('int', v[0], v[1])), 'uint16': Native(lambda v: (v, 16)), 'uint32': Native(lambda v: (v, 32)),
+                   'ExprInt32': Native(lambda v: T('int', v, 32)), 'ExprInt16': Native(lambda v: T('int', v, 16)),
+                   'ExprCompose': Native(lambda l_: T('compose', l_)), 'ExprOp': Native(exprop), 'ExprAff': Native(lambda d, s_: ('aff', d, s_))})
+        loc = {'l': mk_l((0xF3,), 'movsb', opm, adm), 'e': []}
+        try:
+            Evaluator(sc).exec_stmts(lt.body, loc)
+        except NotConst as e:
+            raise AnalysisError('the count statements of get_instr_expr_args are outside the evaluable subset: %s' % e)
+        affs = [x for x in loc['e'] if isinstance(x, tuple) and x[0] == 'aff' and x[1] is ecx_t]
+        inst2 = 'count register: operand size %s, address size %s' % (opm, adm)
+        if len(affs) != 1:
+            R.violation(inst2, 'rep-count:not-assigned', 'under the prefix test get_instr_expr_args appends %d assignments of ecx' % len(affs), where(eh, lt))
+            continue
+        got, _ = val(affs[0][2], ECX0)
+        want = 0xFFFF if adm == afs.u32 else 0x1FFFF
+        if got != want:
+            R.violation(inst2, 'rep-count:value:%s:%s' % (opm, adm), 'one iteration of a repeated string instruction with operand size %s, address size %s and ecx = %#x leaves ecx = %#x; '
+                        'IA-32: %#x (the count is %s: the address size selects it, the operand size does not)' % (opm, adm, ECX0, got, want, 'cx' if adm == afs.u16 else 'ecx'), where(eh, lt),
+                        witness='66 f3 a5 (rep movsw) with ecx = 0x10000: 0xffff iterations remain')
+        else:
+            R.ok(inst2, sample='%s: ecx = %#x -> %#x' % (inst2, ECX0, got))
 
 def _derived_cell(mems, m):
     """A cell whose address is computed from the operand's address (bit-string instructions address base + offset)."""
@@ -391,4 +477,6 @@ MUTANTS = [
     ('far-call-selector-dropped', 'miasmx/tools/emul_helper.py', "        e = mnemo_func[l.m.name](l, my_eip, *args)", "        e = mnemo_func[l.m.name](l, my_eip, args[0])", 'C08.D1'),
     ('far-call-cs-not-pushed', 'miasmx/arch/ia32_sem.py', "        e.append(ExprAff(ExprMem(c_cs, size=s), old_cs))\n", "", 'C08.D1'),
     ('cmpxchg8b-no-edx', 'miasmx/arch/ia32_sem.py', "    e.append(ExprAff(edx, ExprCond(cond, m[32:64], edx)))\n", "", 'C08.D1'),
+    ('rep-count-by-opmode', 'miasmx/tools/emul_helper.py', "        if l.admode == x86_afs.u16:\n            count = ExprCompose", "        if l.opmode == x86_afs.u16:\n            count = ExprCompose", 'C08.D7'),
+    ('rep-movsx-again', 'miasmx/tools/emul_helper.py', " and \\\n           l.m.name[-1] in \"bwd\"\n", "\n", 'C08.D7'),
 ]
